@@ -20,7 +20,7 @@ EXPLANATION = (
 )
 TRUSTED = _c02.TRUSTED + ["cut for the loop path: the exact-path threshold constant (1000) is lowered inside the interpreter; the claim for the loop is therefore about the loop code at small operand sizes"]
 ASSUMPTIONS = ["base is a canonical finite mpf; exponent n concrete per obligation", "operand sign concrete per obligation for loop-path shapes"]
-BUDGET = {'quick': dict(ob_deadline_s=160, total_s=175), 'thorough': dict(ob_deadline_s=900, total_s=2400)}
+BUDGET = {'quick': dict(ob_deadline_s=160, total_s=175), 'thorough': dict(ob_deadline_s=600, total_s=1500)}
 BOUNDS = {'quick': 'exact path: base mantissas 1..8 bits, n in -3..7; loop path (threshold lowered): (3-bit base, n=9, prec 1..2), (4-bit, n=5), (27-bit base, n=3, prec 1)'}
 
 
